@@ -51,15 +51,24 @@ def run(t):
     run.add_tlc(v, f"verifier grid 0..{grid}")
     nv = len(v.beh)
     _feed(run, vh, "replay-tsverify", v.beh, "verify grid")
+    # the legacy Microsoft token: content / message-digest / signature links
+    lg = run_tlc("LegacyStamp_MC", "LegacyStamp_MC.cfg", timeout=300)
+    tlc_must_pass(lg, "LegacyStamp_MC")
+    run.add_tlc(lg, "LegacyStamp mc (8 tokens)")
+    for vv in ("SkipDigest", "SkipContentCompare"):
+        tlc_must_fail(run_tlc("LegacyStamp_MC", f"LegacyStamp_Neg_{vv}.cfg", timeout=300, want_beh=False), vv, "OnlyGenuineAccepted")
+    _feed(run, vh, "ts-legacy", lg.beh, "legacy tokens")
     run.cov["rule"] = (f"client: all {nb} complete behaviours of {cfg} (1..N configured authorities each answering with one of 15 behaviours: "
                        "valid, granted-with-mods, wrong/absent nonce, wrong imprint, rejected, waiting, non-granting status with a valid token, bad token signature, no certificate, "
                        "HTTP error, hang, garbage, trailing bytes; cache off/miss/good hit/garbage hit/hit for another signature) replayed "
                        "through tsclient.New -> pkcs9.TimestampAndMarshal; observed: authorities contacted in order, error vs emitted "
                        "signature, identity of the authority whose token was attached, chain verification of the result. "
                        f"verifier: all {nv} cases of the time grid (signer and TSA validity windows, attested time, now, timestamp "
-                       "present/absent, countersignature over this or another signature value) on relic's VerifyChain.")
+                       "present/absent, countersignature over this or another signature value) on relic's VerifyChain; "
+                       "legacy Microsoft tokens: all 8 combinations of (content, value the message digest was computed over, signature intact) x RSA/ECDSA authority "
+                       "on pkcs9.VerifyMicrosoftToken.")
     run.cov["exhaustive"] = True
-    run.assumptions += ["RFC 3161 style through the PKCS#7 path; the legacy Microsoft style and the per-signer variants (ClickOnce, VSIX, cosign) are not replayed",
+    run.assumptions += ["RFC 3161 style through the PKCS#7 path; the legacy Microsoft style only at VerifyMicrosoftToken (no legacy HTTP exchange is scripted); the per-signer variants (ClickOnce, VSIX, cosign) are not replayed",
                         "tokens are built by the harness's own CMS encoder; time points are 30 days apart, 'now' never coincides with a certificate boundary"]
     return run.finish()
 
